@@ -46,7 +46,7 @@ Record rt_inst := {
 Record port_decl := { pd_dir : string; pd_type : string; pd_dims : list Z; pd_name : string }.
 
 Record netlist := {
-  n_name : string;
+  nl_name : string;
   n_nw : bool;                                   (* narrow-wide network *)
   n_algo : string;                               (* RouteCfg.RouteAlgo *)
   n_ep_enum : Z * list (string * Z);             (* width, members (incl. NumEndpoints) *)
@@ -166,7 +166,7 @@ Definition sx_netlist (x : sx) : res netlist :=
   do ps <- bind (sx_get "ports" f) (sx_listof sx_port);
   do ls <- bind (sx_get "links" f) (sx_listof (sx_kv sx_str));
   do nis <- bind (sx_get "nis" f) (sx_listof sx_ni); do rts <- bind (sx_get "rts" f) (sx_listof sx_rt);
-  Ok {| n_name := name; n_nw := nw; n_algo := algo; n_ep_enum := ee; n_sam_enum := se; n_id_bits := ib;
+  Ok {| nl_name := name; n_nw := nw; n_algo := algo; n_ep_enum := ee; n_sam_enum := se; n_id_bits := ib;
         n_xy_bits := xb; n_route_bits := rb; n_aw := aw; n_sam_num := sn; n_sam := sam; n_tables := tb;
         n_route_cfg := rc; n_axi_cfgs := ac; n_ports := ps; n_links := ls; n_nis := nis; n_rts := rts |}.
 
@@ -202,7 +202,7 @@ Definition x_rt (r : rt_inst) : sx :=
 Definition x_port (p : port_decl) : sx :=
   L [A (pd_dir p); A (pd_type p); xL xZ (pd_dims p); A (pd_name p)].
 Definition x_netlist (n : netlist) : sx :=
-  L [fld "name" (A (n_name n)); fld "nw" (xB (n_nw n)); fld "algo" (A (n_algo n));
+  L [fld "name" (A (nl_name n)); fld "nw" (xB (n_nw n)); fld "algo" (A (n_algo n));
      fld "ep_enum" (x_enum (n_ep_enum n)); fld "sam_enum" (x_enum (n_sam_enum n));
      fld "id_bits" (xO xZ (n_id_bits n));
      fld "xy_bits" (xO (fun t => L [xZ (fst t); xZ (fst (snd t)); xZ (snd (snd t))]) (n_xy_bits n));
